@@ -113,6 +113,9 @@ func blockedLoops() (bool, string) {
 				fn = fn[:i]
 			}
 			idle := state == "select" && strings.HasPrefix(top, "github.com/ovrclk/akash/"+loop)
+			if strings.Contains(g, "util/veriftrace.Gate(") {
+				idle = true // parked by the harness itself (the stopping window is held open)
+			}
 			if state == "running" || state == "runnable" || idle {
 				continue
 			}
@@ -462,6 +465,19 @@ func (r *runner) do(i int, s Step) (*Rec, bool) {
 	mgrSaw := func(name string) func() bool {
 		return func() bool { return r.seen["mgr:"+name] > 0 && r.itersDone() }
 	}
+	// Scripts are sequences of stimuli and stay executable when the code has left the path the specification
+	// predicted (drift): a stimulus that, in the state the implementation is actually in, has no manager loop to
+	// consume it is complete when the service has dealt with it.
+	pre := r.mgrState()
+	routedTo := func(name string) func() bool {
+		if r.svcDown {
+			return func() bool { return true }
+		}
+		if pre != "run" {
+			return r.itersDone
+		}
+		return mgrSaw(name)
+	}
 
 	switch s.Name {
 	case "PreLease":
@@ -476,7 +492,13 @@ func (r *runner) do(i int, s Step) (*Rec, bool) {
 		return rec, true
 	case "LeaseWon":
 		_ = r.publish(e.leaseWon(s.Arg))
-		if !r.await(mgrSaw("lease")) {
+		cond := mgrSaw("lease")
+		if r.svcDown {
+			cond = func() bool { return true }
+		} else if pre == "stopping" {
+			cond = r.itersDone
+		}
+		if !r.await(cond) {
 			return fail("hook lease")
 		}
 	case "Dropped":
@@ -519,6 +541,19 @@ func (r *runner) do(i int, s Step) (*Rec, bool) {
 	case "SubmitSw", "FetchOkSw":
 		// the manager is made to wait in its K-th hostname check of this iteration; the stop request arrives; the
 		// check's select has nothing else to take
+		if r.svcDown {
+			if s.Name == "SubmitSw" { // (drift) the provider is down: the call is refused by Service.Submit itself
+				r.nsub++
+				r.curReq = r.nsub
+				r.sub[r.curReq] = s.Arg
+				r.open[r.curReq] = true
+				e.submit(r.curReq, s.Arg)
+			}
+			break
+		}
+		if s.Name == "FetchOkSw" && r.fetch == nil && (pre != "run" || r.mgrLast == nil || !kvb(r.mgrLast, "fetch")) {
+			break // (drift) no query is in flight
+		}
 		held := e.hosts.arm(s.K)
 		hook := "manifest"
 		if s.Name == "SubmitSw" {
@@ -598,15 +633,18 @@ func (r *runner) do(i int, s Step) (*Rec, bool) {
 		}
 	case "Update":
 		_ = r.publish(dtypes.EventDeploymentUpdated{ID: e.did, Version: e.fx.hash[s.Arg]})
-		if !r.await(mgrSaw("update")) {
+		if !r.await(routedTo("update")) {
 			return fail("hook update")
 		}
 	case "LeaseRemoved":
 		_ = r.publish(mtypes.EventLeaseClosed{ID: e.leaseID(s.Arg), Price: sdk.NewInt64Coin("uakt", 111)})
-		if !r.await(mgrSaw("lease-removed")) {
+		if !r.await(routedTo("lease-removed")) {
 			return fail("hook lease-removed")
 		}
 	case "FetchOk", "FetchErr":
+		if r.fetch == nil && (pre != "run" || r.mgrLast == nil || !kvb(r.mgrLast, "fetch")) {
+			break // (drift) no query is in flight: there is nothing to complete
+		}
 		if !r.awaitFetch() {
 			return fail("chain query start")
 		}
@@ -623,12 +661,17 @@ func (r *runner) do(i int, s Step) (*Rec, bool) {
 			return fail("hook " + name)
 		}
 	case "DeploymentClosed":
-		e.holdGate()
+		if pre == "run" {
+			e.holdGate()
+		}
 		_ = r.publish(dtypes.EventDeploymentClosed{ID: e.did})
-		if !r.await(mgrSaw("exit")) {
+		if !r.await(routedTo("exit")) {
 			return fail("hook exit")
 		}
 	case "ManagerDone":
+		if pre != "stopping" {
+			break // (drift) there is no stopped manager to collect
+		}
 		r.itersWant++
 		e.releaseGate()
 		if !r.await(func() bool { return r.itersDone() && r.managers == 0 }) {
